@@ -1,5 +1,8 @@
 // Driver for C26 (spec/FastIndex.tla): replays TLC behaviours on the REAL bptree store.
 //
+// Besides Set / Remove / Commit / Crash / Reopen the writer can abandon its session on the SAME
+// handle (Reload = Store.LoadLatestVersion, LoadVersion = Store.LoadVersion(v)).
+//
 //   -x mode=S  standalone storebptree.Store over a DB (Direct: a tree commit reaches the DB at once)
 //   -x mode=R  the same store mounted in a real rootmulti store (commits ride the BatchCollector and
 //              reach the DB with the block's single WriteSync; a start-up rebuild waits there too)
@@ -368,6 +371,18 @@ func replay(cfg config, beh []mbt.Step) (o outcome) {
 				w.st.Delete(nil, []byte(st.Str("k")))
 			case "Commit":
 				w.commit()
+			case "Reload", "LoadVersion":
+				// the SAME store handle abandons its working session by loading committed state again
+				var err error
+				if act == "Reload" {
+					err = w.st.LoadLatestVersion()
+				} else {
+					err = w.st.LoadVersion(int64(st.Int("v")))
+				}
+				w.loadOK = err == nil
+				if (err == nil) != st.Bool("ok") && o.drift == "" {
+					o.drift = fmt.Sprintf("step %d %s: load error %v, model ok=%v", i, act, err, st.Bool("ok"))
+				}
 			case "Crash":
 				w.crash()
 			case "Reopen":
